@@ -327,7 +327,7 @@ def run_impl(history, workdir, tag="c"):
             be.inj.close_all()
             extra = None
             if op["k"] in ("register", "remove", "set_metadata"):
-                extra = side_probes(be, op, ref, o["sql_state"])
+                extra = side_probes(be, op, ref, o["sql_state"], fresh=(op["k"] != "register" or idx % 2 == 0))
             failed = o["sql"] == ["storage"]
             if failed:
                 o["mem"] = None
@@ -349,17 +349,18 @@ def run_impl(history, workdir, tag="c"):
     return obs, violation
 
 
-def side_probes(be, op, ref, listing):
+def side_probes(be, op, ref, listing, fresh=True):
     """per-storage-object caches: (a) a freshly opened SqlStorage on the same file must list what the long-lived
     object lists; (b) lookup() on the long-lived object must agree with its own listing for the names the
     operation could have touched.  Not operations of the history (no injection, not counted)."""
     if listing[0] != "dict":
         return None
-    try:
-        fresh = be.N.NameServer(be.N.SqlStorage(be.dbfile))
-        fl = probe(fresh)
-    finally:
-        be.inj.close_all()
+    fl = listing
+    if fresh:
+        try:
+            fl = probe(be.N.NameServer(be.N.SqlStorage(be.dbfile)))
+        finally:
+            be.inj.close_all()
     if fl != listing:
         return ("fresh-storage-differs:" + op["k"], "after %s the long-lived SqlStorage lists %s but a freshly opened one on the same file lists %s" % (short(op), short(listing), short(fl)))
     have = {e[0]: e for e in listing[1]}
@@ -730,7 +731,7 @@ def gen_cases(ctx):
     rng = ctx.rng
     cases = []
     for _ in range(ctx.n(1250, 10000)):
-        nops = rng.choice([1, 2, 3, 5, 8, 8, 12, 12, 20, 30, 40])
+        nops = rng.choice([1, 2, 3, 5, 8, 8, 12, 12, 20, 30, 40] if not ctx.quick else [1, 2, 3, 5, 8, 8, 12, 12, 16, 20, 30])
         cases.append(gen_history(rng, nops, rng.choice([0.0, 0.0, 0.1, 0.3])))
     if not ctx.quick:
         for _ in range(ctx.n(0, 100)):
